@@ -28,6 +28,9 @@ SCENARIOS = {
     # a stop request for the current job, then more work: the stopped body is still executing until it returns
     'add-stop-add': [[('add', 1), ('stop', None), ('add', 2)]],
     'add|stop-insert-add': [[('add', 1)], [('stop', None), ('insert', 2), ('add', 3)]],
+    # background jobs asked to stop: known under their name until their bodies have returned
+    'spawn-spawn|stopbg-probe': [[('spawn', 'b1'), ('spawn', 'b2')], [('stopbg', None), ('probe', None)]],
+    'add-spawn-stopbg-add': [[('add', 1), ('spawn', 'b1'), ('stopbg', None), ('add', 2)]],
 }
 
 
@@ -93,6 +96,8 @@ def scenario(ctx, clients, max_preempt, raising):
                     if not jc.is_running(self.ident):
                         problems.append('background job %s is executing but is_running(%r) is False' % (self.ident, self.ident))
                 s.yield_point('job body')
+                if self.background and not (jc.is_running(self.ident) and jc.has_jobs()):
+                    problems.append('background job %s is still executing but is no longer reported as running (is_running/has_jobs)' % (self.ident,))
                 fails = ctx.choose(3, 'job-raises') if raising else 0      # 0 returns, 1 raises an Exception, 2 raises a BaseException (sys.exit())
                 if not self.background:
                     running['queued'] -= 1
@@ -134,6 +139,9 @@ def scenario(ctx, clients, max_preempt, raising):
                         continue
                     elif op == 'stop':
                         jc.stop_current()
+                        continue
+                    elif op == 'stopbg':
+                        jc.stop_background()
                         continue
                     else:
                         jc.has_jobs(); jc.get_current(); jc.get_queued(); jc.is_running('b1')
